@@ -1,1 +1,27 @@
-From Olareg Require Import Base Index Reg.
+(* Props_C04.v — only complete, well-formed manifests are accepted; refusals change nothing. *)
+From Olareg Require Import Base Index Reg RegProofs RegProofs2.
+Local Open Scope list_scope.
+
+(* A push is acknowledged only when every gate was passed: reference is a tag or a digest, the
+   declared digest is the digest of the body, the media type is supported and of the body's kind,
+   the body parses for that type, is within the limit, and every referenced config / layer / child
+   is present in the same repository (missing_in counts those that are not). *)
+Theorem C04_accept_sound : forall cfg E r arg ctype clen dq body s s' o,
+  run cfg E (h_manifest_put cfg E r arg ctype clen dq body) s = (s', o) ->
+  rs_status o = 201%Z -> mp_accept_cond cfg E r arg ctype clen dq body s.
+Proof. exact manifest_put_accept_sound. Qed.
+Print Assumptions C04_accept_sound.
+
+(* Every other answer except a storage failure (500) leaves the whole state - all repositories,
+   tags, manifests, referrers, blobs, sessions - syntactically unchanged. *)
+Theorem C04_refuse_noop : forall cfg E r arg ctype clen dq body s s' o,
+  run cfg E (h_manifest_put cfg E r arg ctype clen dq body) s = (s', o) ->
+  rs_status o <> 201%Z -> rs_status o <> 500%Z -> s' = s.
+Proof. exact manifest_put_refused_noop. Qed.
+Print Assumptions C04_refuse_noop.
+
+(* presence in another repository does not count: the check reads repository r only *)
+Theorem C04_other_repo : forall cfg E r ds m k s,
+  run cfg E (check_blobs r ds m k) s = run cfg E (k (m + missing_in cfg r s ds)%nat) s.
+Proof. exact check_blobs_count. Qed.
+Print Assumptions C04_other_repo.
